@@ -28,7 +28,7 @@ INTS = {
 FLOATS = {"REAL": ("<f", 4), "LREAL": ("<d", 8)}
 BITS = {"BYTE": 1, "WORD": 2, "DWORD": 4, "LWORD": 8, "ENGUNIT": 2}
 STR_PREFIX = {"STRING": 2, "SHORT_STRING": 1, "LOGIX_STRING": 4, "STRING2": 2}
-STRN_ENC = {1: "utf-8", 2: "utf-16-le", 4: "utf-32-le"}
+STRN_ENC = {1: "latin-1", 2: "utf-16-le", 4: "utf-32-le"}   # n bytes per character: one byte is one character (as in STRING / SHORT_STRING)
 
 # CIP elementary data type codes (Vol 1, Table C-6.1) with their widths in bytes (None = variable)
 TYPE_CODES = {
